@@ -41,6 +41,17 @@ Definition ssingle (x : wit) : wset := fun w => w = x.
 Lemma clean_not_ios c : clean c -> ios c -> False.
 Proof. intros [Hs [Hg _]] [Hi|Hi]; [destruct (s_stack c); discriminate | congruence]. Qed.
 
+(* lock values in the range the constructors allow (AbsLockTime / RelLockTime: 1 .. 2^31-1) *)
+Fixpoint lwf (m : ms) : Prop :=
+  match m with
+  | MAfter t | MOlder t => (0 < t < 2147483648)%N
+  | MAlt x | MSwap x | MCheck x | MDupIf x | MVerify x | MNonZero x | MZeroNotEqual x => lwf x
+  | MAndV x y | MAndB x y | MOrB x y | MOrD x y | MOrC x y | MOrI x y => lwf x /\ lwf y
+  | MAndOr a b c => lwf a /\ lwf b /\ lwf c
+  | MThresh _ xs => (fix go (l : list ms) : Prop := match l with [] => True | x :: r => lwf x /\ go r end) xs
+  | _ => True
+  end.
+
 Section Script.
   Variable e : env.
   Variable ke : keyenv.
@@ -54,8 +65,9 @@ Section Script.
     Bool.eqb (rel_is_time t1) (rel_is_time t2) = true.
   (* environment *)
   Hypothesis HMIF : minimalif (e_sv e) = true.
-  Hypothesis Hlock_a : forall t, a_after A t = check_locktime e (Z.of_N t).
-  Hypothesis Hlock_o : forall t, a_older A t = check_sequence e (Z.of_N t).
+  (* the honest party's lock view is the environment's, for lock values in range *)
+  Hypothesis Hlock_a : forall t, (0 < t < 2147483648)%N -> a_after A t = check_locktime e (Z.of_N t).
+  Hypothesis Hlock_o : forall t, (0 < t < 2147483648)%N -> a_older A t = check_sequence e (Z.of_N t).
   Hypothesis Hpre : forall kd h p x, look A kd h = Some p -> blen x = 32%N -> hfun e kd x = h -> x = p.
   Variable Ktop : list key.
   Hypothesis Hpkh : forall k key, In k Ktop -> e_keyok e key = true -> e_hash160 e key = kh ke k -> key = kb ke k.
@@ -986,5 +998,237 @@ Section Script.
         intros l bs Hl Hf Hv w Hw [j [H _]]. cbn in Hl. inversion Hl; subst l. rewrite fill_repeat_zero in Hf. inversion Hf; subst bs.
         rewrite rev_repeat. apply (csa_novis ks Hi (vis_nosig_novis ks _ Hv (nosig_repeat (length ks))) w j Hw H). }
       destruct (Nat.ltb _ _); exact G.
+  Qed.
+
+  (* ================= the induction ================= *)
+  Hypothesis Hksort : forall ks, Permutation (ksort ke ks) ks.
+
+  Definition FInv (m : ms) (t : ty) : Prop := finv (ukeys m) (usd m) (DsatR m) (SatR m) (t_mall t).
+
+  Lemma nm_children2 (ml mr : mall) :
+    m_nm (m_and_v ml mr) = true \/ m_nm (m_and_b ml mr) = true \/ m_nm (m_or_b ml mr) = true \/
+    m_nm (m_or_d ml mr) = true \/ m_nm (m_or_c ml mr) = true \/ m_nm (m_or_i ml mr) = true ->
+    m_nm ml = true /\ m_nm mr = true.
+  Proof.
+    destruct ml as [dl sl nl], mr as [dr sr nr]. cbn.
+    destruct nl, nr; [auto | | |]; intros H; exfalso; repeat (destruct H as [H|H]; [destruct dl, dr, sl, sr; discriminate|]); destruct dl, dr, sl, sr; discriminate.
+  Qed.
+  Lemma nmc_and_v ml mr : m_nm (m_and_v ml mr) = true -> m_nm ml = true /\ m_nm mr = true.
+  Proof. intros H. apply nm_children2. auto. Qed.
+  Lemma nmc_and_b ml mr : m_nm (m_and_b ml mr) = true -> m_nm ml = true /\ m_nm mr = true.
+  Proof. intros H. apply nm_children2. auto. Qed.
+  Lemma nmc_or_b ml mr : m_nm (m_or_b ml mr) = true -> m_nm ml = true /\ m_nm mr = true.
+  Proof. intros H. apply nm_children2. auto. Qed.
+  Lemma nmc_or_d ml mr : m_nm (m_or_d ml mr) = true -> m_nm ml = true /\ m_nm mr = true.
+  Proof. intros H. apply nm_children2. auto. Qed.
+  Lemma nmc_or_c ml mr : m_nm (m_or_c ml mr) = true -> m_nm ml = true /\ m_nm mr = true.
+  Proof. intros H. apply nm_children2. auto 7. Qed.
+  Lemma nmc_or_i ml mr : m_nm (m_or_i ml mr) = true -> m_nm ml = true /\ m_nm mr = true.
+  Proof. intros H. apply nm_children2. auto 7. Qed.
+  Lemma nm_children3 (ma mb mc : mall) : m_nm (m_and_or ma mb mc) = true -> m_nm ma = true /\ m_nm mb = true /\ m_nm mc = true.
+  Proof.
+    destruct ma as [da sa na], mb as [db sb nb], mc as [dc sc nc]. cbn. intros H.
+    repeat (apply Bool.andb_true_iff in H; destruct H as [H ?]). subst. auto.
+  Qed.
+  Lemma cnt_full {X} (g : X -> bool) l : cnt g l = length l -> forall x, In x l -> g x = true.
+  Proof.
+    unfold cnt. induction l as [|y r IH]; intros H x Hx; [destruct Hx|]. cbn [filter length] in H.
+    pose proof (cnt_le_len g r) as G. unfold cnt in G. destruct (g y) eqn:E.
+    - cbn [length] in H. destruct Hx as [<-|Hx]; [exact E | apply IH; [lia | exact Hx]].
+    - lia.
+  Qed.
+
+  Ltac bin_start IH1 IH2 Ht Hwf Hlw Hnd Hin Hnm lemnm :=
+    apply type2 in Ht; destruct Ht as [tx [ty [Hx [Hy Hc]]]]; apply lift2_mall in Hc; unfold FInv; rewrite Hc in *; destruct Hwf as [W1 W2]; destruct Hlw as [L1 L2];
+    cbn [ukeys] in Hnd, Hin |- *; destruct (nodup_app_disj _ _ Hnd) as [N1 [N2 D]];
+    destruct (lemnm (t_mall tx) (t_mall ty) Hnm) as [Nx Ny];
+    pose proof (IH1 W1 L1 N1 (fun k Hk => Hin k (in_or_app _ _ k (or_introl Hk))) tx Hx Nx) as F1;
+    pose proof (IH2 W2 L2 N2 (fun k Hk => Hin k (in_or_app _ _ k (or_intror Hk))) ty Hy Ny) as F2;
+    pose proof (stat_of_uinv _ _ _ _ _ (uniq_inv ke A se f L Habs_unit Hrel_unit Hksort rhs _ W1 N1 tx Hx) Nx) as S1;
+    pose proof (stat_of_uinv _ _ _ _ _ (uniq_inv ke A se f L Habs_unit Hrel_unit Hksort rhs _ W2 N2 ty Hy) Ny) as S2;
+    unfold FInv, NonMallUniqueThresh.usd in F1, F2 |- *; cbn [sat_dissat];
+    destruct (sat_dissat ke se false rhs _) as [ld ls] in F1, S1 |- *; destruct (sat_dissat ke se false rhs _) as [rd rs] in F2, S2 |- *.
+
+  Ltac un1 Ht Hwf Hnd Hin IH :=
+    apply type1 in Ht; destruct Ht as [tx [Hx Hc]]; apply lift1_mall in Hc; unfold FInv; rewrite Hc in *.
+
+  Theorem script_inv : forall m, uwf m -> lwf m -> NoDup (ukeys m) -> incl (ukeys m) Ktop ->
+    forall t, type_of m = ROk t -> m_nm (t_mall t) = true -> FInv m t.
+  Proof.
+    induction m using ms_ind'; intros Hwf Hlw Hnd Hin t0 Ht Hnm; cbn [uwf lwf type_of] in *.
+    - (* 1 *) inversion Ht; subst. exact ft_true.
+    - (* 0 *) inversion Ht; subst. exact ft_false.
+    - (* pk_k *) inversion Ht; subst. exact (ft_pk_k k (Hin k (or_introl eq_refl))).
+    - (* pk_h *) inversion Ht; subst. exact (ft_pk_h k (Hin k (or_introl eq_refl))).
+    - contradiction.
+    - (* after *) inversion Ht; subst. unfold FInv, NonMallUniqueThresh.usd. cbn [sat_dissat ukeys]. apply ft_time.
+      + intros w [v [H _]]. discriminate.
+      + intros w [v [_ [-> [_ H]]]]. split; [reflexivity|]. rewrite (lk_after _ _ _ _ L), (Hlock_a t Hlw). exact H.
+    - (* older *) inversion Ht; subst. unfold FInv, NonMallUniqueThresh.usd. cbn [sat_dissat ukeys]. apply ft_time.
+      + intros w [v [H _]]. discriminate.
+      + intros w [v [_ [-> [_ H]]]]. split; [reflexivity|]. rewrite (lk_older _ _ _ _ L), (Hlock_o t Hlw). exact H.
+    - inversion Ht; subst. apply (ft_hash HSha256 h). intros w [v [x [-> [Hl [_ [Hh _]]]]]]. exists x. auto.
+    - inversion Ht; subst. apply (ft_hash HHash256 h). intros w [v [x [-> [Hl [_ [Hh _]]]]]]. exists x. auto.
+    - inversion Ht; subst. apply (ft_hash HRipemd160 h). intros w [v [x [-> [Hl [_ [Hh _]]]]]]. exists x. auto.
+    - inversion Ht; subst. apply (ft_hash HHash160 h). intros w [v [x [-> [Hl [_ [Hh _]]]]]]. exists x. auto.
+    - (* a *) un1 Ht Hwf Hnd Hin IHm. exact (IHm Hwf Hlw Hnd Hin tx Hx Hnm).
+    - (* s *) un1 Ht Hwf Hnd Hin IHm. exact (IHm Hwf Hlw Hnd Hin tx Hx Hnm).
+    - (* c *) un1 Ht Hwf Hnd Hin IHm. pose proof (IHm Hwf Hlw Hnd Hin tx Hx Hnm) as F. revert F. unfold FInv. apply finv_sub.
+      + intros w [v [_ [key H]]]. exists key. exact H.
+      + intros w [v [_ [key H]]]. exists key. exact H.
+    - (* d *) un1 Ht Hwf Hnd Hin IHm. assert (Nx : m_nm (t_mall tx) = true) by (destruct (t_mall tx); exact Hnm).
+      pose proof (IHm Hwf Hlw Hnd Hin tx Hx Nx) as F.
+      pose proof (stat_of_uinv _ _ _ _ _ (uniq_inv ke A se f L Habs_unit Hrel_unit Hksort rhs _ Hwf Hnd tx Hx) Nx) as S.
+      unfold FInv, NonMallUniqueThresh.usd in F |- *. cbn [sat_dissat ukeys]. destruct (sat_dissat ke se false rhs m) as [d0 sub].
+      refine (finv_sub _ _ _ _ _ _ _ _ _ (ft_dupif _ (d0, sub) _ _ _ S F)).
+      + intros w [v [-> [Hc' _]]]. rewrite (mif v false Hc'). reflexivity.
+      + intros w [v [-> [Hc' [Hs _]]]]. rewrite (mif v true Hc'). exists []. split; [reflexivity|]. exists []. exact (Hs eq_refl).
+    - (* v *) un1 Ht Hwf Hnd Hin IHm. assert (Nx : m_nm (t_mall tx) = true) by (destruct (t_mall tx); exact Hnm).
+      pose proof (IHm Hwf Hlw Hnd Hin tx Hx Nx) as F. unfold FInv, NonMallUniqueThresh.usd in F |- *. cbn [sat_dissat ukeys].
+      destruct (sat_dissat ke se false rhs m) as [d0 sub].
+      refine (finv_sub _ _ _ _ _ _ _ _ _ (ft_verify _ (d0, sub) _ _ _ F)).
+      + intros w [v [H _]]. discriminate.
+      + intros w [v [_ [_ [v' H]]]]. exists v'. exact H.
+    - (* j *) un1 Ht Hwf Hnd Hin IHm. assert (Nx : m_nm (t_mall tx) = true) by (destruct (t_mall tx); exact Hnm).
+      pose proof (IHm Hwf Hlw Hnd Hin tx Hx Nx) as F. unfold FInv, NonMallUniqueThresh.usd in F |- *. cbn [sat_dissat ukeys].
+      destruct (sat_dissat ke se false rhs m) as [d0 sub].
+      refine (finv_sub _ _ _ _ _ _ _ _ _ (ft_nonzero _ (d0, sub) _ _ _ F)).
+      + intros w [v [[_ [-> _]]|[a [r [_ [_ [_ [H _]]]]]]]]; [left; reflexivity | right; exists v; exact H].
+      + intros w [v [[H _]|[a [r [_ [_ [_ [H _]]]]]]]]; [discriminate | exists v; exact H].
+    - (* n *) un1 Ht Hwf Hnd Hin IHm. pose proof (IHm Hwf Hlw Hnd Hin tx Hx Hnm) as F. revert F. unfold FInv. apply finv_sub.
+      + intros w [v [_ [v' [H _]]]]. exists v'. exact H.
+      + intros w [v [_ [v' [H _]]]]. exists v'. exact H.
+    - (* and_v *) bin_start IHm1 IHm2 Ht Hwf Hlw Hnd Hin Hnm nmc_and_v.
+      refine (finv_sub _ _ _ _ _ _ _ _ _ (ft_and_v _ _ (ld, ls) (rd, rs) _ _ _ _ _ _ D S1 S2 F1 F2)).
+      + intros w [v [wx [wy [-> [H1 H2]]]]]. exists wx, wy. split; [reflexivity|]. split; [exists []; exact H1 | exists v; exact H2].
+      + intros w [v [wx [wy [-> [H1 H2]]]]]. exists wx, wy. split; [reflexivity|]. split; [exists []; exact H1 | exists v; exact H2].
+    - (* and_b *) bin_start IHm1 IHm2 Ht Hwf Hlw Hnd Hin Hnm nmc_and_b.
+      refine (finv_sub _ _ _ _ _ _ _ _ _ (ft_and_b _ _ (ld, ls) (rd, rs) _ _ _ _ _ _ D S1 S2 F1 F2)).
+      + intros w [v [wx [wy [vx [vy [sx [sy [-> [H1 [H2 [_ [_ [Es _]]]]]]]]]]]]].
+        destruct sx, sy; try discriminate.
+        * right. left. exists wx, wy. split; [reflexivity|]. split; [exists vx; exact H1 | exists vy; exact H2].
+        * right. right. exists wx, wy. split; [reflexivity|]. split; [exists vx; exact H1 | exists vy; exact H2].
+        * left. exists wx, wy. split; [reflexivity|]. split; [exists vx; exact H1 | exists vy; exact H2].
+      + intros w [v [wx [wy [vx [vy [sx [sy [-> [H1 [H2 [_ [_ [Es _]]]]]]]]]]]]].
+        destruct sx, sy; try discriminate. exists wx, wy. split; [reflexivity|]. split; [exists vx; exact H1 | exists vy; exact H2].
+    - (* andor *) apply rbind_ok in Ht. destruct Ht as [ta [Ha Ht]]. apply rbind_ok in Ht. destruct Ht as [tb [Hb Ht]]. apply rbind_ok in Ht. destruct Ht as [tc [Hc Ht]].
+      apply and_or_mall in Ht. unfold FInv. rewrite Ht in *. destruct Hwf as [W1 [W2 W3]]. destruct Hlw as [L1 [L2 L3]]. cbn [ukeys] in Hnd, Hin |- *.
+      destruct (nodup_app_disj _ _ Hnd) as [N1 [N23 D1]]. destruct (nodup_app_disj _ _ N23) as [N2 [N3 D23]].
+      assert (Dab : disj (ukeys m1) (ukeys m2)) by (intros k H1 H2; apply (D1 k H1); apply in_or_app; left; exact H2).
+      assert (Dac : disj (ukeys m1) (ukeys m3)) by (intros k H1 H2; apply (D1 k H1); apply in_or_app; right; exact H2).
+      destruct (nm_children3 _ _ _ Hnm) as [Na [Nb Nc]].
+      assert (I1 : incl (ukeys m1) Ktop) by (intros k Hk; apply Hin; apply in_or_app; left; exact Hk).
+      assert (I2 : incl (ukeys m2) Ktop) by (intros k Hk; apply Hin; apply in_or_app; right; apply in_or_app; left; exact Hk).
+      assert (I3 : incl (ukeys m3) Ktop) by (intros k Hk; apply Hin; apply in_or_app; right; apply in_or_app; right; exact Hk).
+      pose proof (IHm1 W1 L1 N1 I1 ta Ha Na) as F1. pose proof (IHm2 W2 L2 N2 I2 tb Hb Nb) as F2. pose proof (IHm3 W3 L3 N3 I3 tc Hc Nc) as F3.
+      pose proof (stat_of_uinv _ _ _ _ _ (uniq_inv ke A se f L Habs_unit Hrel_unit Hksort rhs _ W1 N1 ta Ha) Na) as S1.
+      pose proof (stat_of_uinv _ _ _ _ _ (uniq_inv ke A se f L Habs_unit Hrel_unit Hksort rhs _ W2 N2 tb Hb) Nb) as S2.
+      pose proof (stat_of_uinv _ _ _ _ _ (uniq_inv ke A se f L Habs_unit Hrel_unit Hksort rhs _ W3 N3 tc Hc) Nc) as S3.
+      unfold FInv, NonMallUniqueThresh.usd in F1, F2, F3 |- *. cbn [sat_dissat].
+      destruct (sat_dissat ke se false rhs m1) as [ad asat], (sat_dissat ke se false rhs m2) as [bd bs], (sat_dissat ke se false rhs m3) as [cd cs].
+      refine (finv_sub _ _ _ _ _ _ _ _ _ (ft_and_or _ _ _ (ad, asat) (bd, bs) (cd, cs) _ _ _ _ _ _ _ _ _ Dab Dac D23 S1 S2 S3 F1 F2 F3 Hnm)).
+      + intros w [v [wa [w' [va [-> [[H1 [_ [H2 _]]]|[H1 [_ H2]]]]]]]].
+        * right. exists wa, w'. split; [reflexivity|]. split; [exists va; exact H1 | exists v; exact H2].
+        * left. exists wa, w'. split; [reflexivity|]. split; [exists va; exact H1 | exists v; exact H2].
+      + intros w [v [wa [w' [va [-> [[H1 [_ [H2 _]]]|[H1 [_ H2]]]]]]]].
+        * left. exists wa, w'. split; [reflexivity|]. split; [exists va; exact H1 | exists v; exact H2].
+        * right. exists wa, w'. split; [reflexivity|]. split; [exists va; exact H1 | exists v; exact H2].
+    - (* or_b *) bin_start IHm1 IHm2 Ht Hwf Hlw Hnd Hin Hnm nmc_or_b.
+      refine (finv_sub _ _ _ _ _ _ _ _ _ (ft_or_b _ _ (ld, ls) (rd, rs) _ _ _ _ _ _ D S1 S2 F1 F2 Hnm)).
+      + intros w [v [wx [wy [vx [vy [sx [sy [-> [H1 [H2 [_ [_ [Es _]]]]]]]]]]]]].
+        destruct sx, sy; try discriminate. exists wx, wy. split; [reflexivity|]. split; [exists vx; exact H1 | exists vy; exact H2].
+      + intros w [v [wx [wy [vx [vy [sx [sy [-> [H1 [H2 [_ [_ [Es _]]]]]]]]]]]]].
+        destruct sx, sy; try discriminate.
+        * right. exists wx, wy. split; [reflexivity|]. split; [exists vx; exact H1 | exists vy; exact H2].
+        * left. right. exists wx, wy. split; [reflexivity|]. split; [exists vx; exact H1 | exists vy; exact H2].
+        * left. left. exists wx, wy. split; [reflexivity|]. split; [exists vx; exact H1 | exists vy; exact H2].
+    - (* or_d *) bin_start IHm1 IHm2 Ht Hwf Hlw Hnd Hin Hnm nmc_or_d.
+      refine (finv_sub _ _ _ _ _ _ _ _ _ (ft_or_d _ _ (ld, ls) (rd, rs) _ _ _ _ _ _ D S1 S2 F1 F2 Hnm)).
+      + intros w [v [[H _]|[wx [wy [vx [-> [H1 [_ H2]]]]]]]]; [discriminate|].
+        exists wx, wy. split; [reflexivity|]. split; [exists vx; exact H1 | exists v; exact H2].
+      + intros w [v [[_ [H _]]|[wx [wy [vx [-> [H1 [_ H2]]]]]]]]; [left; exists v; exact H|].
+        right. exists wx, wy. split; [reflexivity|]. split; [exists vx; exact H1 | exists v; exact H2].
+    - (* or_c *) bin_start IHm1 IHm2 Ht Hwf Hlw Hnd Hin Hnm nmc_or_c.
+      refine (finv_sub _ _ _ _ _ _ _ _ _ (ft_or_c _ _ (ld, ls) (rd, rs) _ _ _ _ _ _ D S1 S2 F1 F2 Hnm)).
+      + intros w [v [H _]]. discriminate.
+      + intros w [v [_ [_ [[vx [H _]]|[wx [wy [vx [-> [H1 [_ H2]]]]]]]]]]; [left; exists vx; exact H|].
+        right. exists wx, wy. split; [reflexivity|]. split; [exists vx; exact H1 | exists []; exact H2].
+    - (* or_i *) bin_start IHm1 IHm2 Ht Hwf Hlw Hnd Hin Hnm nmc_or_i.
+      refine (finv_sub _ _ _ _ _ _ _ _ _ (ft_or_i _ _ (ld, ls) (rd, rs) _ _ _ _ _ _ D S1 S2 F1 F2)).
+      + intros w [v [sel [w' [b [-> [Hc' [H _]]]]]]]. rewrite (mif sel b Hc'). destruct b; [left | right]; (exists w'; split; [reflexivity | exists v; exact H]).
+      + intros w [v [sel [w' [b [-> [Hc' [H _]]]]]]]. rewrite (mif sel b Hc'). destruct b; [left | right]; (exists w'; split; [reflexivity | exists v; exact H]).
+    - (* thresh *) destruct Hwf as [Hk Hwf]. apply rbind_ok in Ht. destruct Ht as [ts [Hts Ht]].
+      apply (tys_of_ok xs ts) in Hts. apply threshold_mall in Ht. unfold FInv. rewrite Ht in *. clear Ht.
+      cbn [ukeys] in Hnd, Hin |- *. destruct (Forall2_ix _ _ _ MTrue dty Hts) as [Hlen Hty].
+      set (n := length xs) in *. set (mls := map t_mall ts) in *.
+      assert (Hlm : length mls = n) by (unfold mls; rewrite map_length; lia).
+      rewrite m_threshold_closed in Hnm |- *. cbv zeta in Hnm |- *. fold mls in Hnm |- *. rewrite Hlm in Hnm |- *. cbn [m_nm] in Hnm.
+      apply Bool.andb_true_iff in Hnm. destruct Hnm as [Hnm Edu]. apply Bool.andb_true_iff in Hnm. destruct Hnm as [Enm Ec].
+      rewrite forallb_forall in Edu, Enm.
+      assert (Hnmi : forall i, (i < n)%nat -> nth i mls m_true = t_mall (nth i ts dty)) by (intros i Hi; unfold mls; apply nth_map_d; lia).
+      assert (G : forall i, (i < n)%nat -> m_nm (t_mall (nth i ts dty)) = true /\ m_dissat (t_mall (nth i ts dty)) = DUnique).
+      { intros i Hi. rewrite <- (Hnmi i Hi). assert (Hin' : In (nth i mls m_true) mls) by (apply nth_In; lia). split; [apply Enm, Hin'|].
+        specialize (Edu _ Hin'). unfold is_du in Edu. destruct (m_dissat (nth i mls m_true)); try discriminate. reflexivity. }
+      assert (HPd : pdisj (map ukeys xs) /\ Forall (@NoDup key) (map ukeys xs)).
+      { rewrite flat_map_concat_map in Hnd. apply nodup_concat_pdisj in Hnd. exact Hnd. }
+      destruct HPd as [HPd HNd].
+      assert (Hwfi : forall i, (i < n)%nat -> uwf (nth i xs MTrue)).
+      { intros i Hi. assert (Hin' : In (nth i xs MTrue) xs) by (apply nth_In, Hi). revert Hin'. generalize (nth i xs MTrue). clear -Hwf. intros y Hy.
+        induction xs as [|x r IH]; [contradiction|]. destruct Hwf as [W1 W2]. destruct Hy as [<-|Hy]; [exact W1 | apply IH; assumption]. }
+      assert (Hlwi : forall i, (i < n)%nat -> lwf (nth i xs MTrue)).
+      { intros i Hi. assert (Hin' : In (nth i xs MTrue) xs) by (apply nth_In, Hi). revert Hin'. generalize (nth i xs MTrue). clear -Hlw. intros y Hy.
+        induction xs as [|x r IH]; [contradiction|]. destruct Hlw as [W1 W2]. destruct Hy as [<-|Hy]; [exact W1 | apply IH; assumption]. }
+      assert (Hndi : forall i, (i < n)%nat -> NoDup (ukeys (nth i xs MTrue))).
+      { intros i Hi. rewrite Forall_forall in HNd. apply HNd. apply in_map. apply nth_In, Hi. }
+      assert (Hini : forall i, (i < n)%nat -> incl (ukeys (nth i xs MTrue)) Ktop).
+      { intros i Hi k0 Hk0. apply Hin. exact (tu_keys_in xs i Hi k0 Hk0). }
+      assert (HF : forall i (Hi : (i < n)%nat), FInv (nth i xs MTrue) (nth i ts dty)).
+      { intros i Hi. rewrite Forall_forall in H. apply (H _ (nth_In xs MTrue Hi) (Hwfi i Hi) (Hlwi i Hi) (Hndi i Hi) (Hini i Hi) _ (Hty i Hi)). apply (G i Hi). }
+      assert (HU : forall i (Hi : (i < n)%nat), uinv A se f (ukeys (nth i xs MTrue)) (usd (nth i xs MTrue))
+                     (fun B => all_dsat ke B (nth i xs MTrue)) (fun B => all_sat ke B (nth i xs MTrue)) (t_mall (nth i ts dty))).
+      { intros i Hi. exact (uniq_inv ke A se f L Habs_unit Hrel_unit Hksort rhs _ (Hwfi i Hi) (Hndi i Hi) _ (Hty i Hi)). }
+      assert (HS : Forall childS xs).
+      { apply (forall_of_nth _ _ MTrue). intros i Hi. destruct (G i Hi) as [G1 G2].
+        pose proof (stat_of_uinv _ _ _ _ _ (HU i Hi) G1) as S. pose proof (HF i Hi) as F. unfold FInv in F.
+        split; [apply S|]. split; [apply S|]. split; [exact (f_du _ _ _ _ _ F G2) | exact (f_sat _ _ _ _ _ F)]. }
+      assert (HJ : Forall (childJ ke A se f rhs) xs).
+      { apply (forall_of_nth _ _ MTrue). intros i Hi. destruct (G i Hi) as [G1 _].
+        split; [exact (u_jd _ _ _ _ _ _ _ _ (HU i Hi) G1) | exact (u_js _ _ _ _ _ _ _ _ (HU i Hi) G1)]. }
+      assert (HC : Forall clean (map fst (map usd xs))).
+      { apply (forall_of_nth _ _ IMPOSSIBLE). intros i Hi. rewrite !map_length in Hi. fold (nth_sat (map fst (map usd xs)) i).
+        rewrite (tu_nd ke se rhs xs i Hi). destruct (G i Hi) as [G1 G2]. exact (u_du _ _ _ _ _ _ _ _ (HU i Hi) G1 G2). }
+      unfold FInv, NonMallUniqueThresh.usd. cbn [sat_dissat]. rewrite ds_thresh. fold n.
+      constructor; cbn [fst snd m_dissat].
+      + (* satisfaction *)
+        apply (JS_sub _ _ (fun w => Rthr PR xs w (N.to_nat k))).
+        { intros w [v [_ [j [Hr [Ej _]]]]]. symmetry in Ej. apply N.eqb_eq in Ej. subst k. rewrite Nat2N.id. exact Hr. }
+        destruct (N.eqb k (N.of_nat n)) eqn:Ek.
+        * apply N.eqb_eq in Ek. replace (N.to_nat k) with (length xs) by (fold n; lia). exact (JS_thresh_all xs HS HPd).
+        * apply N.eqb_neq in Ek. apply JS_thresh_nm; [fold n; lia | exact HS | exact HJ | exact HPd | exact HC].
+      + intros E. destruct (forallb is_du mls && _); discriminate.
+      + intros E. destruct (forallb is_du mls && N.eqb (N.of_nat (cnt m_signed mls)) (N.of_nat n)) eqn:Ed; [|discriminate].
+        apply Bool.andb_true_iff in Ed. destruct Ed as [_ Ed]. apply N.eqb_eq in Ed.
+        assert (Hall : forall i, (i < n)%nat -> m_signed (t_mall (nth i ts dty)) = true).
+        { intros i Hi. rewrite <- (Hnmi i Hi). apply (cnt_full m_signed mls); [lia | apply nth_In; lia]. }
+        apply (JS_sub _ _ (fun w => exists j, Rthr PR xs w j)).
+        { intros w [v [_ [j [Hr _]]]]. exists j. exact Hr. }
+        apply JS_thresh_dis; [exact HS | exact HPd | exact HC|].
+        apply (forall_of_nth _ _ MTrue). intros i Hi Hn w Hw Hs. destruct (G i Hi) as [G1 _].
+        exact (sat_dead _ _ _ _ _ (stat_of_uinv _ _ _ _ _ (HU i Hi) G1) (HF i Hi) (Hall i Hi) Hn w Hw Hs).
+    - (* multi *) inversion Ht; subst. cbn [ukeys] in Hnd, Hin |- *. exact (ft_multi_gen k ks Hwf Hnd Hin).
+    - (* sortedmulti *) inversion Ht; subst. cbn [ukeys] in Hnd, Hin |- *.
+      assert (Hi' : incl (ksort ke ks) ks) by (intros x Hx; exact (Permutation_in x (Hksort ks) Hx)).
+      apply (finv_weaken (ksort ke ks)); [exact Hi'|].
+      exact (ft_multi_gen k (ksort ke ks) Hwf (Permutation_NoDup (Permutation_sym (Hksort ks)) Hnd) (fun x Hx => Hin x (Hi' x Hx))).
+    - (* multi_a *) inversion Ht; subst. cbn [ukeys] in Hnd, Hin |- *.
+      refine (finv_sub _ _ _ _ _ _ _ _ _ (ft_multi_a_gen k ks Hwf Hnd Hin)).
+      + intros w [v [_ [j [H [E _]]]]]. exists j. split; assumption.
+      + intros w [v [_ [j [H [E _]]]]]. exists j. split; assumption.
+    - (* sortedmulti_a *) inversion Ht; subst. cbn [ukeys] in Hnd, Hin |- *.
+      assert (Hi' : incl (ksort ke ks) ks) by (intros x Hx; exact (Permutation_in x (Hksort ks) Hx)).
+      apply (finv_weaken (ksort ke ks)); [exact Hi'|].
+      refine (finv_sub _ _ _ _ _ _ _ _ _ (ft_multi_a_gen k (ksort ke ks) Hwf (Permutation_NoDup (Permutation_sym (Hksort ks)) Hnd) (fun x Hx => Hin x (Hi' x Hx)))).
+      + intros w [v [_ [j [H [E _]]]]]. exists j. split; assumption.
+      + intros w [v [_ [j [H [E _]]]]]. exists j. split; assumption.
   Qed.
 End Script.
